@@ -14,16 +14,22 @@ def _tok(x):
     return int(round(x)) if abs(x - round(x)) < 1e-9 else 777     # 777: not an integer -> cannot equal any model value
 
 
+def _shift(tok, off):
+    return tok - off if tok not in (-1, 1000, -1000, 777) else tok
+
+
 def project(t, final):
-    """final_<n>.dat text -> rows / obs records for RankJudge (P2/P3 projections only)."""
+    """final_<n>.dat text -> rows / obs records for RankJudge (P2/P3 projections only).  A table run with a common shift 'off' of every
+    finite likelihood is projected back by subtracting it: the relation is invariant under the shift."""
     rows, prel, dls = [], [], []
+    off = t.get("off", 0)
     for rec in csv.reader(io.StringIO(final or ""), delimiter=";"):
         if not rec:
             continue
         fn = rec[1]
         v = int(fn[1:].split("+")[0]) if fn.startswith("v") and fn[1:].split("+")[0].isdigit() else 0
         th = float(rec[7])
-        rows.append({"v": v, "rank": int(rec[0]), "dl": _tok(rec[2]), "nll": _tok(rec[4]), "plen": _tok(rec[5]), "tlen": _tok(rec[6]),
+        rows.append({"v": v, "rank": int(rec[0]), "dl": _shift(_tok(rec[2]), off), "nll": _shift(_tok(rec[4]), off), "plen": _tok(rec[5]), "tlen": _tok(rec[6]),
                      "theta": _tok(th), "zero": float(rec[3]) == 0.0})
         prel.append(float(rec[3]))
         dls.append(float(rec[2]))
@@ -64,6 +70,18 @@ def run(tier, replay=None):
         if isinstance(t, list) and json.dumps(t) not in seen:
             seen.add(json.dumps(t))
             tables.append({"U": 4, "tab": t})
+    # the same tables with every finite likelihood shifted by a common large amount (large data sets: DL of thousands of nats; very
+    # precise data: large negative DL): the relation, shifted back, is unchanged
+    base = rng.sample(tables, min(len(tables), 240 if tier == "quick" else 2400))
+    shifted = [dict(t, off=rng.choice([3000, 900, 746, -720, -1500])) for t in base]
+    # many uniques (more uniques than ranks, for the 12-rank runs): TLC -simulate, only the complete tables
+    big = tlc.must(tlc.run("Rank", "SPECIFICATION SimSpec\nINVARIANT EmitTable\nCHECK_DEADLOCK FALSE\n",
+                           constants={"U": "30", "K": "44", "NllV": "{0,1,2,3,4,5,6,1000,-1}", "PlenV": "{0,1,2,3,1000,-1}", "TlenV": "{1,2,3}"},
+                           simulate="num=%d" % (12 if tier == "quick" else 80), depth=44, seed=evidence.seed() + 1, workers=1), "Rank simulate U=30")
+    r.add_tlc(big, "rank_simulate_U30")
+    bigtabs = [{"U": 30, "tab": t} for t in big["json"] if isinstance(t, list) and len(t) >= 44]
+    bigtabs += [dict(t, off=rng.choice([3000, -1500])) for t in bigtabs[:len(bigtabs) // 2]]
+    tables += shifted + bigtabs
     for k, t in enumerate(tables):
         t["id"] = k
     # run the real stage: 1 rank (parallel pool) for all tables, 2 and 3 ranks for a sample
@@ -81,8 +99,10 @@ def run(tier, replay=None):
             raise RuntimeError("combine batch worker failed: " + tail)
         for x in json.load(open(a[1])):
             results[(1, x["id"])] = x
-    for P in (2, 3):
-        sub = rng.sample(tables, min(nP, len(tables)))
+    for P in (2, 3, 12):
+        sub = rng.sample(tables, min(nP if P < 12 else nP // 4, len(tables)))
+        if P == 12:
+            sub = [t for t in tables if t["U"] == 30] + sub
         tp, op = os.path.join(s, "c06_inP%d.json" % P), os.path.join(s, "c06_outP%d.json" % P)
         json.dump(sub, open(tp, "w"))
         rr = coord.run_ranks(P, "harness.targets:combine_batch", (tp, op, os.path.join(s, "c06_wP%d" % P)), s, timeout=3000)
@@ -119,12 +139,14 @@ def run(tier, replay=None):
         r.violation(key, "final table violates Rank!Combine clauses %s (U=%d, %d ranks)\n  table %s\n  final:\n%s" % (cl, t["U"], P, t["tab"], (final or "")[:600]),
                     {"table": t, "P": P, "final": final})
     r.add("tables", evaluations=len(cases), nontrivial=nontriv, traces=len(cases), exhaustive_alphabet=consts, runs_P1=sum(1 for m in meta if m[0] == 1),
-          runs_P2=sum(1 for m in meta if m[0] == 2), runs_P3=sum(1 for m in meta if m[0] == 3))
+          runs_P2=sum(1 for m in meta if m[0] == 2), runs_P3=sum(1 for m in meta if m[0] == 3), runs_P12=sum(1 for m in meta if m[0] == 12),
+          shifted=sum(1 for m in meta if m[1].get("off")), many_uniques=sum(1 for m in meta if m[1]["U"] == 30))
     if cases:
         k = min(len(cases) - 1, 17)
         r.sample({"table": cases[k]["tab"], "U": cases[k]["U"], "observed_rows": cases[k]["rows"], "obs": cases[k]["obs"]})
     r.cov["rule"] = ("tables = behaviours of Rank.tla's table builder (exhaustive for U=2, <=3 variants over the stated alphabets%s; TLC -simulate for U=4, <=6 variants); "
-                     "each is written as codelen_matches/aifeyn/equation files, the real combine_DL.main runs on 1 (all), 2 and 3 ranks (sample) and TLC decides "
+                     "a sample is also run with all finite likelihoods shifted by +3000..-1500 nats and TLC -simulate tables with 30 uniques are run on 1 and 12 ranks; "
+                     "each is written as codelen_matches/aifeyn/equation files, the real combine_DL.main runs on 1 (all), 2, 3 and 12 ranks (sample) and TLC decides "
                      "Rank!Combine(table, final table); non-trivial = final tables with >= 2 rows containing an infinite DL, a tie, or a NaN entry in the input" % (
                          "" if exhaustive else ", seeded sample of %d in the quick tier" % nsample))
     r.assumptions += ["P2/P3: DLs of integer inputs are exact integers; Prel compared through ratios at 1e-9"]
